@@ -228,7 +228,9 @@ def compare_set(si, docs, impl, model, stats, mode=""):
                 return "absent"
             tree = hit[0]
         return tree
-    for (d, key, other, path) in G.bare_xdoc_includes(docs):
+    # judged on the family built for it only: in randomly generated sets the other document may be cyclic or erroneous (best
+    # effort), or the included map may carry keys with path syntax ('a/b', '@after last'), which an include re-interprets
+    for (d, key, other, path) in (G.bare_xdoc_includes(docs) if mode.startswith("targeted:xdoc-include") else []):
         if d not in by_doc or other not in by_doc or len({m for (_, _, m, _) in by_doc[other]}) != 1:
             continue
         stats["xdoc_include_checks"] = stats.get("xdoc_include_checks", 0) + 1
